@@ -76,6 +76,9 @@ func tokenize(sourceCode string, cursor *Position) ([]Token, error) {
 	return result, nil
 }
 
+// unescaper undoes, in a single left-to-right pass, the escaping done by the printer
+var unescaper = strings.NewReplacer(`\\`, `\`, `\"`, `"`, `\n`, "\n")
+
 func read_atom(rdr *tokenReader) (MalType, error) {
 	tokenStruct := rdr.next()
 	if tokenStruct == nil {
@@ -91,13 +94,7 @@ func read_atom(rdr *tokenReader) (MalType, error) {
 		return int(i), nil
 	case scanner.String:
 		str := (*token)[1 : len(*token)-1]
-		return strings.Replace(
-			strings.Replace(
-				strings.Replace(
-					strings.Replace(str, `\\`, "\u029e", -1),
-					`\"`, `"`, -1),
-				`\n`, "\n", -1),
-			"\u029e", "\\", -1), nil
+		return unescaper.Replace(str), nil
 	case scanner.RawString:
 		if *token == "¬" {
 			return nil, lisperror.NewLispError(errors.New("expected '¬', got EOF"), tokenStruct.GetPosition())
